@@ -663,6 +663,10 @@ char* MemoryLeakDetector::allocMemory(TestMemoryAllocator* allocator, size_t siz
     char* memory = allocateMemoryWithAccountingInformation(allocator, size, file, line, allocatNodesSeperately);
     if (memory == NULLPTR) return NULLPTR;
     MemoryLeakDetectorNode* node = createMemoryLeakAccountingInformation(allocator, size, memory, allocatNodesSeperately);
+    if (node == NULLPTR) {
+        allocator->free_memory(memory, size, file, line);
+        return NULLPTR;
+    }
 
     storeLeakInformation(node, memory, size, allocator, file, line);
     return node->memory_;
